@@ -217,16 +217,25 @@ def r20_3(run):
     # move = new expiry - old expiry
     for c in calls_in(up):
         if dotted(c.func) == 'self.expiry.delay':
-            defs = local_defs(up)
             a = c.args[0]
             nm = [x.id for x in ast.walk(a) if isinstance(x, ast.Name)]
-            okd = False
+            oldn = [n.targets[0].id for n in walk_unit(up) if isinstance(n, ast.Assign) and isinstance(n.targets[0], ast.Name) and dotted(n.value) == 'self.expires']
+            okd = bool(nm) and bool(oldn)
             for n_ in nm:
-                for d in defs.get(n_, []):
-                    if d[0] == 'expr' and src(d[1]).replace(' ', '') == 'self.expires-oldexpires':
-                        okd = True
+                for cn in g.nodes_containing(c):
+                    vals = [def_value(r, n_) for r in reaching_defs(g, cn, n_)]
+                    if not vals or not all(v is not None and src(v).replace(' ', '') == 'self.expires-%s' % oldn[0] for v in vals):
+                        okd = False
             run.ob('R20.3', up, c, 'the timer is moved by (new expiry - old expiry)', okd, slot='delay-amount', message='expiry.delay(%s)' % src(a))
-    oe = [n for n in walk_unit(up) if isinstance(n, ast.Assign) and dotted(n.targets[0]) == 'oldexpires']
+    # "now" (self.created) is taken afresh in every call before it is used to compute a delay
+    cr = [n for n in g.real_nodes() if n.kind == 'stmt' and assign_to(n.ast, 'self.created') is not None]
+    okc = bool(cr) and all('utcnow()' in src(assign_to(n.ast, 'self.created')) or 'now(' in src(assign_to(n.ast, 'self.created')) for n in cr)
+    sched = g.nodes_where(lambda n: any(isinstance(a, ast.Call) and callee_attr(a) == 'callLater' for a in node_asts(n)))
+    okc = okc and all(any(g.dominates(c_, s_) for c_ in cr) for s_ in sched)
+    run.ob('R20.3', up, up.node, 'the current time used for a new timer is read in this very update', okc, slot='fresh-now',
+           message='self.created is not (re)assigned from the clock on every path before callLater: a timer armed on an older '
+                   'entry is too long by the age of the entry')
+    oe = [n for n in walk_unit(up) if isinstance(n, ast.Assign) and isinstance(n.targets[0], ast.Name) and dotted(n.value) == 'self.expires']
     ok = len(oe) == 1 and dotted(oe[0].value) == 'self.expires'
     g2 = cfg_of(up)
     if ok:
